@@ -182,6 +182,22 @@ def h_addsub(eng, op, ua, ub, autoconvert, form):
         eng.prove(_units_equal(r._units, {exp[0]: 1}), "result-unit")
         eng.prove(Eq(r.magnitude, exp[1]), "result-value")
         eng.prove(And(Eq(a.magnitude, x), Eq(b.magnitude, y), _units_equal(a._units, {ua: 1}), _units_equal(b._units, {ub: 1})), "operands-untouched")
+    elif form == "inplace-scalar":
+        # the augmented assignment on scalar magnitudes follows the same rule as the binary form
+        a, b = ureg.Quantity(x, ua), ureg.Quantity(y, ub)
+        iop = operator.iadd if op == "+" else operator.isub
+
+        def run_s():
+            nonlocal a
+            a = iop(a, b)
+            return a
+
+        r = _check_outcome(eng, f"i{op}-scalar", run_s, exp)
+        if r is None:
+            return
+        eng.prove(_units_equal(r._units, {exp[0]: 1}), "inplace-scalar-unit")
+        eng.prove(Eq(r.magnitude, exp[1]), "inplace-scalar-value")
+        eng.prove(And(Eq(b.magnitude, y), _units_equal(b._units, {ub: 1})), "inplace-scalar-other-untouched")
     elif form == "rsub":
         # reflected form through a non-Quantity left operand is not defined for units; use __rsub__ directly
         a, b = ureg.Quantity(x, ua), ureg.Quantity(y, ub)
@@ -228,7 +244,22 @@ def h_muldiv(eng, op, ua, ub, autoconvert, form):
         if kb == "O":
             eng.assume(Not(Eq(sb * y + ob, 0)))
     exp = rule_muldiv(op, ua, ub, v, x, y, autoconvert)
-    if form == "scalar":
+    if form == "inplace-scalar":
+        a, b = ureg.Quantity(x, ua), ureg.Quantity(y, ub)
+        iop_s = operator.imul if op == "*" else operator.itruediv
+
+        def run_s():
+            nonlocal a
+            a = iop_s(a, b)
+            return a
+
+        r = _check_outcome(eng, "i" + op + "-scalar", run_s, exp)
+        if r is None:
+            return
+        eng.prove(_units_equal(r._units, exp[0]), "inplace-scalar-units")
+        eng.prove(Eq(r.magnitude, exp[1]), "inplace-scalar-value")
+        eng.prove(And(Eq(b.magnitude, y), _units_equal(b._units, {ub: 1})), "inplace-scalar-other-untouched")
+    elif form == "scalar":
         a, b = ureg.Quantity(x, ua), ureg.Quantity(y, ub)
         r = _check_outcome(eng, op, lambda: pyop(a, b), exp)
         if r is None:
@@ -632,13 +663,13 @@ def cases(tier, seed):
     # H06.c calculus table
     for op in "+-":
         for ua, ub in itertools.product(KINDS_REPR, KINDS_REPR):
-            forms = ["scalar", "inplace"] + (["rsub"] if op == "-" else [])
+            forms = ["scalar", "inplace", "inplace-scalar"] + (["rsub"] if op == "-" else [])
             for form in forms:
-                for ac in (False, True) if (big or form == "scalar") else (False,):
+                for ac in (False, True) if (big or form in ("scalar", "inplace-scalar")) else (False,):
                     out.append(Case("H06.c-addsub", f"{ua}{op}{ub}:{form}:ac={ac}", M, "h_addsub", {"op": op, "ua": ua, "ub": ub, "autoconvert": ac, "form": form}, opts=opts, validate=1))
     for op in "*/":
         for ua, ub in itertools.product(KINDS_REPR, KINDS_REPR):
-            for form in ("scalar", "inplace"):
+            for form in ("scalar", "inplace", "inplace-scalar"):
                 for ac in (False, True):
                     if form == "inplace" and not big and ac and UNITS[ua][0] != "O" and UNITS[ub][0] != "O":
                         continue
